@@ -2,7 +2,7 @@
    the backing slice unchanged outside the cells of the view it was given, never
    panics when the view's cells lie inside the slice, and keeps the shape / length. *)
 From Coq Require Import List Arith Bool NArith ZArith Lia.
-From SNT Require Import Base.Outcome Surface.Bounds Surface.Shape Render.CellLayout Render.Writer Render.TokFuel.
+From SNT Require Import Base.Outcome Surface.Bounds Surface.Shape Render.CellLayout Render.Writer Render.TokFuel Render.WriterTty.
 Import ListNotations.
 
 (* ---------- list_upd ---------- *)
@@ -205,11 +205,10 @@ Proof.
   - destruct (utf8_feed (w_dec st) b) as [u [|ch|]].
     + intros H. eapply keeps_trans; [apply (set_dec_keeps st u)|]. eapply IH; eauto.
     + unfold put_char.
-      destruct (put_cell ctx (set_dec st u) (mkCell (w_face (set_dec st u)) (KChar ch))) as [[st2 [|]]| | |] eqn:H1;
+      destruct (put_cell ctx (set_dec st u) (mkCell (w_face (set_dec st u)) (KChar ch))) as [[st2 f]| | |] eqn:H1;
         try discriminate.
-      * intros H. eapply keeps_trans; [apply (set_dec_keeps st u)|].
-        eapply keeps_trans; [eapply put_cell_keeps; exact H1|eapply IH; exact H].
-      * intros [= <- <-]. eapply keeps_trans; [apply (set_dec_keeps st u)|]. eapply put_cell_keeps; exact H1.
+      intros H. eapply keeps_trans; [apply (set_dec_keeps st u)|].
+      eapply keeps_trans; [eapply put_cell_keeps; exact H1|eapply IH; exact H].
     + intros [= <- <-]. apply set_dec_keeps.
 Qed.
 
@@ -220,7 +219,7 @@ Proof.
   destruct (utf8_feed (w_dec st) b) as [u [|ch|]]; eauto.
   unfold put_char.
   destruct (put_cell_total ctx (set_dec st u) (mkCell (w_face (set_dec st u)) (KChar ch)) Hb) as (st2 & f & H2).
-  rewrite H2. destruct f; eauto. apply IH. eapply keeps_inbounds; [eapply put_cell_keeps; eauto|exact Hb].
+  rewrite H2. apply IH. eapply keeps_inbounds; [eapply put_cell_keeps; eauto|exact Hb].
 Qed.
 
 Lemma write_chunks_keeps ctx chunks : forall st st' b, write_chunks ctx st chunks = Ok (st', b) -> Keeps st st'.
@@ -230,7 +229,6 @@ Proof.
   - destruct (write_bytes ctx st c) as [[st1 s]| | |] eqn:H1; try discriminate.
     pose proof (write_bytes_keeps _ _ _ _ _ H1) as K1.
     destruct s.
-    + intros H. eapply keeps_trans; eauto.
     + intros H. eapply keeps_trans; eauto.
     + intros [= <- <-]. exact K1.
 Qed.
@@ -248,44 +246,99 @@ Qed.
 Lemma put_char_keeps ctx st ch st' b : put_char ctx st ch = Ok (st', b) -> Keeps st st'.
 Proof. apply put_cell_keeps. Qed.
 
+Lemma tty_apply1_keeps ctx st it st' : tty_apply1 ctx st it = Ok st' -> Keeps st st'.
+Proof.
+  destruct it as [ch|seq|raw]; cbn [tty_apply1].
+  - destruct (put_char ctx st ch) as [[st1 f]| | |] eqn:H1; try discriminate.
+    intros [= <-]. eapply put_char_keeps; exact H1.
+  - intros [= <-]. apply keeps_same; reflexivity.
+  - intros [= <-]. apply keeps_refl.
+Qed.
+
+Lemma tty_apply1_total ctx st it : InBounds (w_sh st) (length (w_data st)) -> exists st', tty_apply1 ctx st it = Ok st'.
+Proof.
+  intros Hb. destruct it as [ch|seq|raw]; cbn [tty_apply1]; eauto.
+  destruct (put_cell_total ctx st (mkCell (w_face st) (KChar ch)) Hb) as (st1 & f & H1).
+  unfold put_char. rewrite H1. eauto.
+Qed.
+
 Lemma tty_apply_keeps ctx items : forall st st', tty_apply ctx st items = Ok st' -> Keeps st st'.
 Proof.
   induction items as [|it t IH]; intros st st'; cbn [tty_apply].
   - intros [= <-]. apply keeps_refl.
-  - destruct it as [ch|seq|raw].
-    + destruct (put_char ctx st ch) as [[st1 f]| | |] eqn:H1; try discriminate.
-      intros H. eapply keeps_trans; [eapply put_char_keeps; exact H1|apply IH, H].
-    + intros H. eapply keeps_trans; [|apply IH, H]. apply keeps_same; reflexivity.
-    + apply IH.
+  - destruct (tty_apply1 ctx st it) as [st1| | |] eqn:H1; try discriminate.
+    intros H. eapply keeps_trans; [eapply tty_apply1_keeps; exact H1|apply IH, H].
 Qed.
 
 Lemma tty_apply_total ctx items : forall st, InBounds (w_sh st) (length (w_data st)) ->
   exists st', tty_apply ctx st items = Ok st'.
 Proof.
   induction items as [|it t IH]; intros st Hb; cbn [tty_apply]; eauto.
-  destruct it as [ch|seq|raw].
-  - destruct (put_cell_total ctx st (mkCell (w_face st) (KChar ch)) Hb) as (st1 & f & H1).
-    unfold put_char. rewrite H1. apply IH. eapply keeps_inbounds; [eapply put_cell_keeps; exact H1|exact Hb].
-  - apply IH. exact Hb.
-  - apply IH. exact Hb.
+  destruct (tty_apply1_total ctx st it Hb) as (st1 & H1). rewrite H1.
+  apply IH. eapply keeps_inbounds; [eapply tty_apply1_keeps; exact H1|exact Hb].
 Qed.
 
-Lemma tty_write_keeps ctx bytes : forall st ts st' ts', tty_write ctx st ts bytes = Ok (st', ts') -> Keeps st st'.
+(* a tokenizer between two write calls: nothing rescheduled, candidate consistent *)
+Definition TokOk (ts : tstate) : Prop := CandOk ts /\ t_resched ts = [].
+
+Lemma t0_tokok d : TokOk (t0 d).
+Proof. split; [exact I|reflexivity]. Qed.
+
+Lemma tty_fold_keeps ctx bytes : forall st ts st' ts', tty_fold ctx st ts bytes = Ok (st', ts') -> Keeps st st'.
 Proof.
-  induction bytes as [|b t IH]; intros st ts st' ts'; cbn [tty_write].
+  induction bytes as [|b t IH]; intros st ts st' ts'; cbn [tty_fold].
   - intros [= <- <-]. apply keeps_refl.
   - destruct (tok_feed (cmd_dfa ctx) ts b) as [[ts1 items]| | |]; try discriminate.
     destruct (tty_apply ctx st items) as [st1| | |] eqn:H1; try discriminate.
     intros H. eapply keeps_trans; [eapply tty_apply_keeps; exact H1|eapply IH; exact H].
 Qed.
 
-Lemma tty_write_total ctx bytes : forall st ts, InBounds (w_sh st) (length (w_data st)) -> CandOk ts ->
-  exists st' ts', tty_write ctx st ts bytes = Ok (st', ts') /\ CandOk ts'.
+Lemma tty_fold_total ctx bytes : forall st ts, InBounds (w_sh st) (length (w_data st)) -> TokOk ts ->
+  exists st' ts', tty_fold ctx st ts bytes = Ok (st', ts') /\ TokOk ts'.
 Proof.
-  induction bytes as [|b t IH]; intros st ts Hb Hc; cbn [tty_write]; eauto.
-  destruct (tok_feed_total (cmd_dfa ctx) ts b Hc) as (ts1 & items & -> & Hc1 & _).
+  induction bytes as [|b t IH]; intros st ts Hb Hc; cbn [tty_fold]; eauto.
+  destruct (tok_feed_total (cmd_dfa ctx) ts b (proj1 Hc)) as (ts1 & items & -> & Hc1 & Hr1).
   destruct (tty_apply_total ctx items st Hb) as (st1 & H1). rewrite H1.
-  apply IH; [|exact Hc1]. eapply keeps_inbounds; [eapply tty_apply_keeps; exact H1|exact Hb].
+  apply IH; [|split; assumption]. eapply keeps_inbounds; [eapply tty_apply_keeps; exact H1|exact Hb].
+Qed.
+
+Lemma tty_write_loop_keeps ctx : forall fuel st ts input st' ts',
+  tty_write_loop ctx fuel st ts input = Ok (st', ts') -> Keeps st st'.
+Proof.
+  induction fuel as [|f IH]; intros st ts input st' ts'; cbn [tty_write_loop]; [discriminate|].
+  destruct (tok_decode (cmd_dfa ctx) ts input) as [[[ts1 [it|]] rest]| | |]; try discriminate.
+  - destruct (tty_apply1 ctx st it) as [st1| | |] eqn:H1; try discriminate.
+    intros H. eapply keeps_trans; [eapply tty_apply1_keeps; exact H1|eapply IH; exact H].
+  - intros [= <- <-]. apply keeps_refl.
+Qed.
+
+Lemma tty_write_keeps ctx bytes st ts st' ts' : tty_write ctx st ts bytes = Ok (st', ts') -> Keeps st st'.
+Proof. apply tty_write_loop_keeps. Qed.
+
+Lemma tty_write_total ctx bytes st ts : InBounds (w_sh st) (length (w_data st)) -> TokOk ts ->
+  exists st' ts', tty_write ctx st ts bytes = Ok (st', ts') /\ TokOk ts'.
+Proof. intros Hb Hc. rewrite tty_write_fold by apply Hc. now apply tty_fold_total. Qed.
+
+(* a sequence of writes is one fold over the concatenated bytes *)
+Lemma tty_fold_app ctx b1 b2 : forall st ts,
+  tty_fold ctx st ts (b1 ++ b2) =
+  match tty_fold ctx st ts b1 with
+  | Ok (st1, ts1) => tty_fold ctx st1 ts1 b2
+  | other => other
+  end.
+Proof.
+  induction b1 as [|b t IH]; intros st ts; cbn [app tty_fold]; [reflexivity|].
+  destruct (tok_feed (cmd_dfa ctx) ts b) as [[ts1 items]| | |]; auto.
+  destruct (tty_apply ctx st items) as [st1| | |]; auto.
+Qed.
+
+Lemma tty_chunks_concat ctx chunks : forall st ts, InBounds (w_sh st) (length (w_data st)) -> TokOk ts ->
+  tty_chunks ctx st ts chunks = tty_fold ctx st ts (concat chunks).
+Proof.
+  induction chunks as [|c t IH]; intros st ts Hb Hc; cbn [tty_chunks concat]; [reflexivity|].
+  rewrite tty_fold_app. rewrite tty_write_fold by apply Hc.
+  destruct (tty_fold_total ctx c st ts Hb Hc) as (st1 & ts1 & E & Hc1). rewrite E.
+  apply IH; [|exact Hc1]. eapply keeps_inbounds; [eapply tty_fold_keeps; exact E|exact Hb].
 Qed.
 
 Lemma tty_chunks_keeps ctx chunks : forall st ts st' ts', tty_chunks ctx st ts chunks = Ok (st', ts') -> Keeps st st'.
@@ -296,13 +349,9 @@ Proof.
     intros H. eapply keeps_trans; [eapply tty_write_keeps; exact H1|eapply IH; exact H].
 Qed.
 
-Lemma tty_chunks_total ctx chunks : forall st ts, InBounds (w_sh st) (length (w_data st)) -> CandOk ts ->
-  exists st' ts', tty_chunks ctx st ts chunks = Ok (st', ts') /\ CandOk ts'.
-Proof.
-  induction chunks as [|c t IH]; intros st ts Hb Hc; cbn [tty_chunks]; eauto.
-  destruct (tty_write_total ctx c st ts Hb Hc) as (st1 & ts1 & H1 & Hc1). rewrite H1.
-  apply IH; [|exact Hc1]. eapply keeps_inbounds; [eapply tty_write_keeps; exact H1|exact Hb].
-Qed.
+Lemma tty_chunks_total ctx chunks st ts : InBounds (w_sh st) (length (w_data st)) -> TokOk ts ->
+  exists st' ts', tty_chunks ctx st ts chunks = Ok (st', ts') /\ TokOk ts'.
+Proof. intros Hb Hc. rewrite tty_chunks_concat by assumption. now apply tty_fold_total. Qed.
 
 (* ---------- client programs ---------- *)
 Lemma wop_step_keeps ctx st o st' b : wop_step ctx st o = Ok (st', b) -> Keeps st st'.
@@ -310,6 +359,7 @@ Proof.
   destruct o; cbn [wop_step].
   - apply put_cell_keeps.
   - apply put_cell_keeps.
+  - intros [= <- <-]. apply keeps_same; reflexivity.
   - intros [= <- <-]. apply keeps_same; reflexivity.
   - intros [= <- <-]. apply keeps_same; reflexivity.
   - apply write_chunks_keeps.
@@ -327,7 +377,7 @@ Proof.
   - now apply put_cell_total.
   - now apply write_chunks_total.
   - destruct (write_chunks_total ctx chunks (set_dec st u0) Hb) as (st1 & f & ->). eauto.
-  - destruct (tty_chunks_total ctx chunks st (t0 (cmd_dfa ctx)) Hb (t0_candok _)) as (st1 & ts1 & -> & _). eauto.
+  - destruct (tty_chunks_total ctx chunks st (t0 (cmd_dfa ctx)) Hb (t0_tokok _)) as (st1 & ts1 & -> & _). eauto.
 Qed.
 
 Lemma wops_run_keeps ctx ops : forall st st' bs, wops_run ctx st ops = Ok (st', bs) -> Keeps st st'.
